@@ -688,3 +688,60 @@ func asBinOp(v ssa.Value, ops ...token.Token) *ssa.BinOp {
 	}
 	return nil
 }
+
+// ---------- natural loops ----------
+
+// loopBody returns the natural loop of header h (h plus every block that h dominates and that
+// reaches h through a back edge), or nil if h heads no loop.
+func loopBody(h *ssa.BasicBlock) map[*ssa.BasicBlock]bool {
+	body := map[*ssa.BasicBlock]bool{h: true}
+	var stack []*ssa.BasicBlock
+	for _, p := range h.Preds {
+		if h.Dominates(p) {
+			if !body[p] {
+				body[p] = true
+				stack = append(stack, p)
+			}
+		}
+	}
+	if len(body) == 1 {
+		self := false
+		for _, p := range h.Preds {
+			if p == h {
+				self = true
+			}
+		}
+		if !self {
+			return nil
+		}
+	}
+	for len(stack) > 0 {
+		b := stack[len(stack)-1]
+		stack = stack[:len(stack)-1]
+		for _, p := range b.Preds {
+			if !body[p] && h.Dominates(p) {
+				body[p] = true
+				stack = append(stack, p)
+			}
+		}
+	}
+	return body
+}
+
+// earlyExits returns the edges that leave the loop of h from a block other than h itself
+// (break, return, goto out of the loop); the exit taken on exhaustion leaves from h.
+func earlyExits(h *ssa.BasicBlock) [][2]*ssa.BasicBlock {
+	body := loopBody(h)
+	var out [][2]*ssa.BasicBlock
+	for _, b := range h.Parent().Blocks {
+		if !body[b] || b == h {
+			continue
+		}
+		for _, s := range b.Succs {
+			if !body[s] {
+				out = append(out, [2]*ssa.BasicBlock{b, s})
+			}
+		}
+	}
+	return out
+}
